@@ -188,8 +188,20 @@ func cmdCheck(args []string) {
 		c.checkLoopCount()
 		c.checkAssertsSeen()
 		ctxs = append(ctxs, c)
+		var drift []string
 		for _, e := range c.errs {
+			if contractDrift.MatchString(e) {
+				drift = append(drift, e)
+				continue
+			}
 			structural = append(structural, k+": "+e)
+		}
+		if len(drift) > 0 {
+			// the contract names locals, loops, fields or calls that the function no longer has: the
+			// obligations stated over them cannot be generated, let alone discharged - reported as one
+			// failed obligation of that function (it passed while the code matched the contract)
+			c.obligs = append(c.obligs, &Oblig{Name: k + "#contract_matches_code", Kind: "contract", Goal: "false", NDecl: -1,
+				Pos: c.pos(fn.Pos()), Text: "the contract no longer matches the function: " + strings.Join(drift, "; "), Fn: c})
 		}
 		all = append(all, c.obligs...)
 		covers = append(covers, c.covers...)
@@ -476,6 +488,9 @@ func fatal(code int, f string, a ...any) {
 }
 
 var unsafeName = regexp.MustCompile(`[^A-Za-z0-9_.#:@-]+`)
+
+// contractDrift: contract evaluation errors that mean the code no longer has what the contract names.
+var contractDrift = regexp.MustCompile(`unknown identifier|no field|contract mentions loop|no map iterator|no call .* reached|has no parameter|loop without invariant`)
 
 // writeReplay writes the replay file of a failed obligation and tries to reproduce the
 // counterexample on the real code. Returns the path and whether a failing input was confirmed.
